@@ -128,6 +128,42 @@ func TestC04Sequences(t *testing.T) {
 		}
 	}
 	rec(nil)
+	// two (or three) once handlers fired by one publish, the first of which has left the registry
+	// before the publish retires them — it unsubscribes itself, or a plain handler of the same
+	// publish unsubscribes it: every one of them ran once and none is counted afterwards
+	for v := 0; v < 64; v++ {
+		self, janitor, a1, a2, f2, third := v&1 != 0, v&2 != 0, v&4 != 0, v&8 != 0, v&16 != 0, v&32 != 0
+		if self == janitor || (self && a1) {
+			continue // exactly one remover; a script runs on synchronous invocations only
+		}
+		idx++
+		if !run.Mine(idx) {
+			continue
+		}
+		p := &prog.Program{Types: []int{idx % len(h.Drivers)}}
+		once1 := &prog.Reg{Class: 1, Once: true, Async: a1}
+		if self {
+			once1.Script = [][]prog.Op{{{K: prog.Unsub, T: 0, Class: 1}}}
+		}
+		p.Ops = append(p.Ops, prog.Op{K: prog.Sub, T: 0, Reg: once1})
+		if janitor {
+			p.Ops = append(p.Ops, prog.Op{K: prog.Sub, T: 0, Reg: &prog.Reg{Class: 2, Script: [][]prog.Op{{{K: prog.Unsub, T: 0, Class: 1}}}}})
+		}
+		once2 := &prog.Reg{Class: 3, Once: true, Async: a2}
+		if f2 {
+			once2.Filter = 1
+		}
+		p.Ops = append(p.Ops, prog.Op{K: prog.Sub, T: 0, Reg: once2})
+		if third {
+			p.Ops = append(p.Ops, prog.Op{K: prog.Sub, T: 0, Reg: &prog.Reg{Class: 4, Once: true, Ctx: true}})
+		}
+		p.Ops = append(p.Ops, prog.Op{K: prog.Count, T: 0})
+		for k := 0; k < 2; k++ {
+			p.Ops = append(p.Ops, prog.Op{K: prog.Pub, T: 0, UseCtx: k == 1}, prog.Op{K: prog.Wait}, prog.Op{K: prog.Count, T: 0}, prog.Op{K: prog.Has, T: 0})
+		}
+		h.Exec(idx, p, nil, after)
+		run.Case(fmt.Sprintf("several-once self%v janitor%v a%v/%v f%v third%v", self, janitor, a1, a2, f2, third), true)
+	}
 	run.Count("enumerated_sequences_x_variants", int64(idx))
 	run.Exhaustive(true)
 }
